@@ -10,6 +10,7 @@ on the five curves and several time grids, both values of the pw_exact switch, a
 oracle with the property's tolerance 1e-7*sqrt(D_test*D_trial), aspect h_x^2/h_t <= 32."""
 import itertools
 import math
+import os
 from fractions import Fraction
 
 import numpy as np
@@ -223,6 +224,7 @@ def layerB_chunk(item):
     g, els, orc, SL0, SL1 = get_universe(key)
     N = len(els)
     out = {'n': 0, 'classes': {}, 'viols': [], 'nviol': 0, 'nontrivial': 0}
+    warm = {}
     for idx in range(lo, hi):
         te, tr = els[idx // N], els[idx % N]
         tc = universe.time_class(te, tr)
@@ -241,6 +243,7 @@ def layerB_chunk(item):
             if val is not None:
                 err = abs(val - ref) / scale
                 what = 'computed {!r} exact {!r}'.format(val, ref)
+                warm[(idx, sw)] = val
             c = out['classes'].setdefault(cl, [0, 0.0])
             c[0] += 1
             c[1] = max(c[1], err if err < float('inf') else 9e99)
@@ -252,6 +255,65 @@ def layerB_chunk(item):
                                          'trial': [tr.time_interval, tr.space_interval], 'err': err, 'what': what})
         if tc != 'acausal':
             out['nontrivial'] += 1
+    # differential oracle against hidden state: a second pair of operators serves the same pairs in the OPPOSITE order
+    # (quick), and a brand-new operator per pair (thorough); every value must be bitwise the one obtained above
+    fresh_each = os.environ.get('VERIF_C01_FRESH') == '1'
+    SLr = {False: universe.make_SL(key[0], False, key[1]), True: universe.make_SL(key[0], True, key[1])}
+    for idx in range(hi - 1, lo - 1, -1):
+        te, tr = els[idx // N], els[idx % N]
+        for sw in (True, False):
+            if (idx, sw) not in warm:
+                continue
+            try:
+                op = universe.make_SL(key[0], sw, key[1]) if fresh_each else SLr[sw]
+                other = float(op.bilform(tr, te))
+            except Exception:
+                other = None
+            out['n_fresh'] = out.get('n_fresh', 0) + 1
+            if other is None or other != warm[(idx, sw)]:
+                out['nviol'] += 1
+                if len(out['viols']) < 3:
+                    out['viols'].append({'curve': key[0], 'tgrid': key[1], 'pw_exact': sw, 'class': 'history-dependent',
+                                         'test': [te.time_interval, te.space_interval], 'trial': [tr.time_interval, tr.space_interval],
+                                         'err': float('inf'), 'what': 'operator with history A gives {!r}, operator with {} gives {!r}'.format(
+                                             warm[(idx, sw)], 'no history' if fresh_each else 'the reversed history', other)})
+    return out
+
+
+def history_task(item):
+    """Call history across curves / operator options in ONE fresh process: serve every pair of universe A (switch on, then
+    off), then every pair of universe B (off, then on); B's values are compared with the oracle.  State that leaks from one
+    operator, curve or option set into another (class- or module-level caches keyed too coarsely) shows up here."""
+    keyA, keyB = item
+    out = {'n': 0, 'viols': [], 'nviol': 0, 'worst': 0.0}
+    gA, elsA, orcA, SLA0, SLA1 = get_universe(keyA)
+    for te in elsA:
+        for tr in elsA:
+            for SL in (SLA1, SLA0):
+                try:
+                    SL.bilform(tr, te)
+                except Exception:
+                    pass
+    gB, elsB, orcB, _, _ = get_universe(keyB)
+    ops = {False: universe.make_SL(keyB[0], False, keyB[1]), True: universe.make_SL(keyB[0], True, keyB[1])}
+    for te in elsB:
+        for tr in elsB:
+            ref = orcB.value(tr, te)
+            scale = math.sqrt(orcB.diag(te) * orcB.diag(tr))
+            for sw in (False, True):
+                out['n'] += 1
+                try:
+                    val = float(ops[sw].bilform(tr, te))
+                    err = abs(val - ref) / scale
+                except Exception as ex:
+                    val, err = repr(ex), float('inf')
+                out['worst'] = max(out['worst'], min(err, 9e99))
+                if not err <= TOL:
+                    out['nviol'] += 1
+                    if len(out['viols']) < 2:
+                        out['viols'].append({'curve': keyB[0], 'tgrid': keyB[1], 'pw_exact': sw, 'class': 'after-serving-' + keyA[0],
+                                             'test': [te.time_interval, te.space_interval], 'trial': [tr.time_interval, tr.space_interval],
+                                             'err': err, 'what': 'in a process that served {} before: computed {!r} exact {!r}'.format(keyA[0], val, ref)})
     return out
 
 
@@ -269,6 +331,7 @@ NAMED = ['identical', 'nested', 'touching', 'seam-touching', 'seam-corner', 'cor
 
 
 def run(ctx):
+    os.environ['VERIF_C01_FRESH'] = '1' if ctx.tier == 'thorough' else '0'
     # ---- Layer A
     levA = 3 if ctx.tier == 'quick' else 5
     resA = pmap(layerA_curve, [(c, levA) for c in CURVES], ctx.jobs, chunksize=1)
@@ -302,11 +365,13 @@ def run(ctx):
     rng.shuffle(items)  # load balancing only
     resB = pmap(layerB_chunk, items, ctx.jobs, chunksize=1)
     nB = 0
+    nfresh = 0
     nontriv = 0
     classes = {}
     samples = []
     for it, r in zip(items, resB):
         nB += r['n']
+        nfresh += r.get('n_fresh', 0)
         nontriv += r['nontrivial']
         for k, (cnt, mx) in r['classes'].items():
             c = classes.setdefault(k, [0, 0.0])
@@ -321,6 +386,16 @@ def run(ctx):
         extra = r['nviol'] - len(r['viols'])
         if extra > 0:
             ctx.n_viol += 0  # (already represented by the reported ones of the same chunk)
+    hkeys = [(c, (0., 1.), 0, 1, '') for c in CURVES]
+    hitems = [(a, b) for a in hkeys for b in hkeys if a != b]
+    resH = common.pmap_fresh(history_task, hitems, ctx.jobs)
+    nH = 0
+    for it, r in zip(hitems, resH):
+        nH += r['n']
+        for v in r['viols']:
+            ctx.violation({'layer': 'B-history', 'curve': v['curve'], 'pw_exact': v['pw_exact'], 'class': v['class']},
+                          'bilform on {} pw_exact={} {}: test {} trial {}: {}'.format(v['curve'], v['pw_exact'], v['class'], v['test'], v['trial'], v['what']),
+                          dict(v, layer='B'))
     have = set(k.split('|')[0] for k in classes)
     missing = [c for c in ('identical', 'nested', 'touching', 'corner', 'seam-corner', 'seam-touching',
                            'disjoint-same-side', 'disjoint-other-side', 'disjoint-nearer-through-seam') if c not in have]
@@ -331,7 +406,8 @@ def run(ctx):
     cov = {
         'states': statesA, 'transitions': transA, 'traces_validated_against_impl': statesA,
         'layerA': sigsA, 'layerA_level': levA, 'layerA_bilform_swap_pairs': nswap,
-        'evaluations': nB, 'distinct_nontrivial': nontriv,
+        'evaluations': nB, 'distinct_nontrivial': nontriv, 'operator_history_differential_comparisons_bitwise': nfresh, 'cross_curve_history_evaluations_in_fresh_processes': nH,
+        'cross_curve_histories': len(hitems),
         'rule': 'Layer B: every ordered (test, trial) pair of the dyadic rectangle universes listed in layerB_universes '
                 '(real elements, aspect <= 32), each with pw_exact off and on; distinct by construction; non-trivial = causal '
                 '(test interval ends after the trial interval begins)',
